@@ -2,7 +2,10 @@ module verif
 
 go 1.23.0
 
-require github.com/invopop/gobl v0.0.0
+require (
+	github.com/invopop/gobl v0.0.0
+	github.com/invopop/yaml v0.3.1
+)
 
 require (
 	cloud.google.com/go v0.110.2 // indirect
@@ -14,7 +17,6 @@ require (
 	github.com/google/uuid v1.6.0 // indirect
 	github.com/invopop/jsonschema v0.12.0 // indirect
 	github.com/invopop/validation v0.7.0 // indirect
-	github.com/invopop/yaml v0.3.1 // indirect
 	github.com/mailru/easyjson v0.7.7 // indirect
 	github.com/wk8/go-ordered-map/v2 v2.1.8 // indirect
 	golang.org/x/crypto v0.36.0 // indirect
